@@ -88,16 +88,63 @@ pub fn random_literal(r: &mut Rng) -> Lit {
 pub fn record_program(seed: u64, index: usize, n: usize) -> Vec<String> {
     let mut r = Rng::new(seed, 0xc09 + index as u64);
     let lits: Vec<Lit> = (0..n).map(|_| random_literal(&mut r)).collect();
-    let mut src = String::from("fn main() -> u8\n{\n");
+    // dimension audit: the POSITION of the literal varies too (drawn after all literals, so that the literals of
+    // a seed stay what they were): 0, 1 local variable; 2 constant; 3 array element; 4 argument; 5 return value
+    let forms: Vec<usize> = (0..n).map(|_| r.below(6)).collect();
+    let mut decls: Vec<String> = Vec::new();
+    let mut stmts: Vec<String> = Vec::new();
+    // (index of the line that holds the literal: Decl(i) / Stmt(i))
+    let mut at: Vec<(bool, usize)> = Vec::new();
     for (k, l) in lits.iter().enumerate() {
         let minus = if l.neg { "-" } else { "" };
-        if l.sfx {
-            src.push_str(&format!("\tvar v{k} = {minus}{}; print!(v{k}, \"\\n\");\n", l.text));
-        } else {
-            src.push_str(&format!("\tvar v{k}: {} = {minus}{}; print!(v{k}, \"\\n\");\n", l.ty, l.text));
+        let t = l.ty;
+        let lit = format!("{minus}{}", l.text);
+        match forms[k] {
+            2 => {
+                decls.push(format!("const K{k}: {t} = {lit};"));
+                at.push((true, decls.len() - 1));
+                stmts.push(format!("print!(K{k}, \"\\n\");"));
+            }
+            3 => {
+                stmts.push(format!("var a{k}: [2]{t} = [0, {lit}]; print!(a{k}[1], \"\\n\");"));
+                at.push((false, stmts.len() - 1));
+            }
+            4 => {
+                decls.push(format!("fn f{k}(a: {t}) -> {t} {{ return: a }}"));
+                stmts.push(format!("var v{k}: {t} = f{k}({lit}); print!(v{k}, \"\\n\");"));
+                at.push((false, stmts.len() - 1));
+            }
+            5 => {
+                decls.push(format!("fn g{k}() -> {t} {{ return: {lit} }}"));
+                at.push((true, decls.len() - 1));
+                stmts.push(format!("var v{k}: {t} = g{k}(); print!(v{k}, \"\\n\");"));
+            }
+            _ => {
+                if l.sfx {
+                    stmts.push(format!("var v{k} = {lit}; print!(v{k}, \"\\n\");"));
+                } else {
+                    stmts.push(format!("var v{k}: {t} = {lit}; print!(v{k}, \"\\n\");"));
+                }
+                at.push((false, stmts.len() - 1));
+            }
         }
     }
+    let mut src = String::new();
+    for d in &decls {
+        src.push_str(d);
+        src.push('\n');
+    }
+    src.push_str("fn main() -> u8\n{\n");
+    for st in &stmts {
+        src.push('\t');
+        src.push_str(st);
+        src.push('\n');
+    }
     src.push_str("\treturn: 0\n}\n");
+    let line_of = |k: usize| -> usize {
+        let (is_decl, i) = at[k];
+        if is_decl { 1 + i } else { decls.len() + 3 + i }
+    };
     let o = pvh::alpha::run_single(&src, "case.pn", pvh::alpha::Upto::Ir, false);
     let mut lines: Vec<String> = Vec::new();
     let mut status = if o.ok { "ok" } else { "rejected" }.to_string();
@@ -113,7 +160,7 @@ pub fn record_program(seed: u64, index: usize, n: usize) -> Vec<String> {
     }
     let mut out = Vec::new();
     for (k, l) in lits.iter().enumerate() {
-        let line = 3 + k;
+        let line = line_of(k);
         let lint = o.lints.iter().any(|d| d.code == 1142 && d.line == line);
         let code = o.diags.iter().find(|d| d.line == line).map(|d| d.code).unwrap_or(0);
         // the printed decimal -> two's complement limbs of the type's width (Rust's integer parser: trusted conversion)
@@ -138,7 +185,7 @@ pub fn record_program(seed: u64, index: usize, n: usize) -> Vec<String> {
         out.push(
             json!({"lit": l.text.as_bytes(), "t": l.ty, "sfx": l.sfx, "neg": l.neg, "status": status,
                    "accepted": o.ok && lines.len() == n, "lint": lint, "code": code, "bits": bits, "fits": fits,
-                   "printed": printed, "prog": index, "k": k})
+                   "printed": printed, "prog": index, "k": k, "form": forms[k]})
             .to_string(),
         );
     }
